@@ -257,3 +257,56 @@ Module ShadowExamples.
       try (intros; reflexivity); try (intros; discriminate); cbn; intros; lia.
   Qed.
 End ShadowExamples.
+
+(** * Found in round 4 on the unchanged code (reported, not repaired here)
+
+    "A name matched by the table but without a value for the requested type
+    gets an empty successful answer, not the upstream's" holds for the
+    queried name ([matched_without_value], [matched_nothing_speaks]) but NOT
+    for a name reached through a canonical-name entry: filterDNSRequest
+    sees (CanonName, no addresses) and cannot tell "the canonical name is
+    outside the table" from "the table covers it without a value of this
+    type", so it resolves the canonical name upstream.  The witness is the
+    document's own "Example: CNAME+A records" (AGHTechDoc: "AAAA: CNAME =
+    host.com" and nothing else) with an upstream that has an AAAA record
+    for host.com. *)
+Module CoveredTarget.
+  Import DocExamples.
+  Local Open Scope string_scope.
+
+  Definition up6 (name : bytes) (qt : N) : N * list rr :=
+    if N.eqb qt qAAAA then (0%N, [RR_AAAA name 9%N]) else (0%N, []).
+
+  Example covered_target_asked_directly :
+    respond isort up6 true t4 (bs "host.com") qAAAA =
+      Some {| rp_qname := bs "host.com"; rp_rcode := 0%N; rp_answer := []; rp_upstream := [] |}.
+  Proof. vm_compute. reflexivity. Qed.
+
+  Example covered_target_through_cname :
+    respond isort up6 true t4 (bs "sub.host.com") qAAAA =
+      Some {| rp_qname := bs "sub.host.com"; rp_rcode := 0%N;
+              rp_answer := [RR_CNAME (bs "sub.host.com") (bs "host.com"); RR_AAAA (bs "host.com") 9%N];
+              rp_upstream := [(bs "host.com", qAAAA)] |}.
+  Proof. vm_compute. reflexivity. Qed.
+
+  (** The clause as it would read for the finally resolved name, and its
+      refutation by the faithful model. *)
+  Definition covered_target_statement : Prop :=
+    forall (upstream : bytes -> N -> N * list rr) tbl qname qt r p,
+      check_host isort true tbl qname qt = Some r -> r_reason r = Rewritten ->
+      r_canon r <> [] -> r_ips r = [] ->
+      (* asked directly, the canonical name gets the empty rewritten answer *)
+      process_rewrites isort tbl (r_canon r) qt = Some rewritten_empty ->
+      respond isort upstream true tbl qname qt = Some p ->
+      rp_upstream p = [] /\ rp_answer p = [RR_CNAME qname (r_canon r)].
+
+  Theorem covered_target_refuted : ~ covered_target_statement.
+  Proof.
+    intros H.
+    destruct (H up6 t4 (bs "sub.host.com") qAAAA
+                {| r_reason := Rewritten; r_canon := bs "host.com"; r_ips := [] |} _
+                ltac:(vm_compute; reflexivity) eq_refl ltac:(discriminate) eq_refl
+                ltac:(vm_compute; reflexivity) covered_target_through_cname) as [U _].
+    discriminate U.
+  Qed.
+End CoveredTarget.
